@@ -90,6 +90,35 @@ pub fn gen_c02(rng: &mut Rng, thorough: bool) -> Vec<Tagged> {
         out.push((format!("{}-boundary-fwd", kind), Case::Net(spec.clone(), NetCmd::Forward(x.clone()))));
         out.push((format!("{}-boundary-fwd-flatinput", kind), Case::Net(spec, NetCmd::Forward(flat_version(&x)))));
     }
+    // special input values (infinities, NaN, huge, denormal, signed zeros) through every layer kind,
+    // both representations: the defining operator is applied to whatever arrives
+    {
+        let special: Vec<f32> = vec![f32::INFINITY, -1.0, f32::NAN, 3e38, -3e38, 1e-40, -0.0, 0.0, f32::NEG_INFINITY, 2.5, f32::MAX, f32::MIN_POSITIVE];
+        let cases: Vec<(Sh, Simple)> = vec![
+            (Sh::Flat(6), Simple::Dense { out: 3, act: Act::Linear, bias: true, dropout: None }),
+            (Sh::Flat(6), Simple::Dense { out: 2, act: Act::ReLU, bias: false, dropout: None }),
+            (Sh::Sp(1, 3, 4), Simple::Conv { filters: 2, kernel: (2, 2), stride: (1, 1), padding: (1, 0), dilation: (1, 1), act: Act::Linear, dropout: None }),
+            (Sh::Sp(2, 2, 3), Simple::Conv { filters: 1, kernel: (1, 2), stride: (1, 1), padding: (0, 0), dilation: (1, 1), act: Act::Leaky, dropout: None }),
+            (Sh::Sp(1, 3, 4), Simple::Deconv { filters: 2, kernel: (2, 2), stride: (2, 1), padding: (0, 0), act: Act::Linear, dropout: None }),
+            (Sh::Sp(2, 3, 2), Simple::Maxpool { kernel: (2, 2), stride: (1, 1) }),
+            (Sh::Sp(1, 3, 4), Simple::Maxpool { kernel: (3, 2), stride: (1, 2) }),
+        ];
+        for (inp, l) in cases {
+            let n = inp.numel();
+            for shift in 0..3 {
+                let v: Vec<f32> = (0..n).map(|i| special[(i * 5 + shift * 3) % special.len()]).collect();
+                let mut spec = NetSpec::new(inp.to_shape());
+                spec.weights = Some(vec![LW::One(rand_w(rng, &l, inp, 1))]);
+                let kind = l.kind();
+                spec.layers.push(LayerSpec::One(l.clone()));
+                let x = tensor_of_shape(&inp.to_shape(), &v);
+                out.push((format!("{}-special-values-fwd", kind), Case::Net(spec.clone(), NetCmd::Forward(x.clone()))));
+                if kind != "dense" {
+                    out.push((format!("{}-special-values-fwd-flatinput", kind), Case::Net(spec, NetCmd::Forward(flat_version(&x)))));
+                }
+            }
+        }
+    }
     // threshold sweep: extents around the powers of two at which a blocked / vectorised / parallel
     // fast path would switch on (dense inputs and outputs, channels, filters, spatial extents)
     for &(i, o_) in &[(7usize, 9usize), (8, 8), (9, 7), (63, 2), (64, 3), (65, 2), (127, 1), (128, 2), (129, 1), (2, 63), (3, 64), (2, 65), (1, 128), (2, 129), (33, 33)] {
